@@ -78,6 +78,23 @@ def plan_for(prop, tier):
                 dict(kind="worker", name="cacheB", variant="asan", part="", runs=80000 if q else 2000000, block=1000, hash_mod=50, key_mod=1 if q else 16),
                 dict(kind="worker", name="hints-multitask-tsan", variant="tsan", part="hints", runs=60000 if q else 1500000, block=1000, hash_mod=50, key_mod=1 if q else 16),
             ])
+    if prop == "C19":
+        return dict(
+            variants=["asan"], level="fault_enumeration", assumptions=ASSUME_COMMON + [
+                "the file system is an in-memory tree behind a wrapped fopen returning fopencookie streams (glibc's real fread/fseek/fclose run on top); the environment is a wrapped getenv",
+                "the reference resolution model is written from the documentation and the statement (about 40 lines); where the statement is silent and the quantifier names the case (empty TZDIR) it follows the shipped behaviour: an empty TZDIR counts as unset",
+                "validity of every stored image is known by construction (marker zones whose abbreviation and offset encode the path they were stored at; bad magic; leap-second record; truncated; empty; v1-only; a shipped zone), never by asking cctz",
+                "Android/Fuchsia fall-back paths are absent from every world; names beginning with 'libc:' are not generated (internal test-only interface)",
+                "under injected faults the oracle is relaxed to: model outcome or a clean failure (false, UTC) - never success with wrong data or a wrong name"],
+            rule="part cross: the full product TZDIR(6: unset, empty, valid, nonexistent, trailing slash, relative) x TZ(14: unset, empty, X, :X, ::X, localtime, :localtime, ':', invalid, absolute, fixed-offset, UTC, file:X, :Leap) x LOCALTIME(5) "
+                 "x 34 names (relative, nested, absolute, file:-prefixed, empty, ':'-prefixed, UTC/UTC0/fixed and near misses, directory, unreadable, truncated, leap-second, bad magic, empty file, v1-only, real zone, trailing slash, ./, localtime), "
+                 "each world asking load(name), local_time_zone() and a default-constructed zone, then replayed with a different read chunk size; part random: random worlds of 1-6 ops; part faulted: random worlds with fopen errno faults by open index, "
+                 "cookie read errors (EIO/EINTR, persistent or transient) by byte offset, failing seeks, FIFOs and chunk sizes 1..65536. Every world is non-trivial (it resolves at least one name); distinct = distinct (environment, ops, faults, chunk) hashes",
+            stages=[
+                dict(kind="worker", name="cross-product", variant="asan", part="cross", runs=-1, block=500, hash_mod=50, key_mod=1),
+                dict(kind="worker", name="random-worlds", variant="asan", part="random", runs=40000 if q else 2000000, block=1000, hash_mod=50, key_mod=1 if q else 16),
+                dict(kind="worker", name="faulted-worlds", variant="asan", part="faulted", runs=150000 if q else 6000000, block=1000, hash_mod=50, key_mod=1 if q else 16),
+            ])
     if prop == "C12":
         return dict(
             variants=["asan", "gzero", "gpat"], level="fault_enumeration", assumptions=ASSUME_COMMON + [
